@@ -165,7 +165,7 @@ func genC03(r *h.Rng, tier string, idx int) *h.Plan {
 				} else if lookalike {
 					// values of different types that print alike: a variable bound to
 					// one of them must keep its type when it is substituted
-					f[k] = r.PickAny([]interface{}{float64(1), "1", true, "true"})
+					f[k] = r.PickAny([]interface{}{float64(1), "1", true, "true", nil, "<nil>", false})
 				} else {
 					f[k] = r.Pick(vals)
 				}
